@@ -1,5 +1,8 @@
 """C08 - names resolve by unique dotted suffix, identically through every API."""
+import copy
+
 import gin
+from gin import config as gc
 from gin import selector_map
 from vf import rt
 from vf import world
@@ -28,6 +31,21 @@ def build(names, values):
   return m
 
 
+# query strings that are not dotted names (empty components) or that contain the tree's own terminal
+# marker '$' as a component: none of them is a suffix of a stored name, so each must be reported unknown
+MALFORMED = ['', '.', 'a.', '.a', 'a..a', '$', '$.a', '$.b.a', 'a.$', '$.a.b']
+
+# names that are not dotted names (identifiers separated by single periods): insert must refuse them
+INVALID = ['a\n', '', 'a.', '.a', 'a..b', '$', '1a', 'a b', 'a-b', None]
+
+
+def _try(f, *a):
+  try:
+    return ('ok', f(*a))
+  except Exception as e:       # noqa: the TYPE of the exception is what the oracle looks at
+    return ('exc', type(e))
+
+
 def suffixes(n):
   parts = n.split('.')
   return ['.'.join(parts[i:]) for i in range(len(parts))]
@@ -40,6 +58,7 @@ def queries(nvoc):
       if s not in qs:
         qs.append(s)
   qs.extend(['c', 'a.c', 'c.a'])
+  qs.extend(MALFORMED)
   return qs
 
 
@@ -49,12 +68,35 @@ def check_map(m, names, values, nvoc):
   The observation battery only handles concrete strings (values are compared by
   identity first), so it runs natively; the operation under test runs traced.
   """
+  vals = values
+  smap = m._selector_map
+  for n in names:
+    # traced pre-pass over the stored values (identity is the fast path and the normal case): a changed value
+    # is decided here by a solver comparison, so that the counterexample carries `stored != expected`
+    got = smap.get(n, _MISSING) if isinstance(smap, dict) else _MISSING
+    if got is _MISSING or got is values[n]:
+      continue
+    if not (got == values[n]):
+      return rt.no('the value stored under %r changed' % (n,))
+    if vals is values:
+      vals = dict(values)
+    vals[n] = got                 # an equal copy (deepcopy): the native battery compares against this object
   with rt.native():
-    return _check_map(m, names, values, nvoc)
+    return _check_map(m, names, vals, nvoc)
+
+
+_PLAIN = (int, bool, str, type(None))
+_MISSING = object()
 
 
 def _same(got, want):
-  return got is want or rt.same('value', got, want)
+  """Runs natively: stored values are compared by identity; `==` only between plain concrete values (two
+  distinct symbolic objects cannot be compared outside the tracer, and are never the stored object)."""
+  if got is want:
+    return True
+  if type(got) in _PLAIN and type(want) in _PLAIN:
+    return rt.same('value', got, want)
+  return False
 
 
 def _check_map(m, names, values, nvoc):
@@ -67,27 +109,44 @@ def _check_map(m, names, values, nvoc):
     return False
   for q in queries(nvoc):
     want = spec_matching(names, q)
-    if sorted(m.matching_selectors(q)) != want:
+    r = _try(m.matching_selectors, q)
+    if r[0] != 'ok':
+      return rt.no('matching_selectors(%r) raised %s' % (q, r[1].__name__))
+    if sorted(r[1]) != want:
       return False
     if (q in m) != (q in names):
       return False
     if not _same(m.get(q, 'dflt'), values[q] if q in names else 'dflt'):
       return False
-    got_all = m.get_all_matches(q)
+    r = _try(m.__getitem__, q)                       # m[q]: complete names only, no suffix matching
+    if q in names:
+      if r[0] != 'ok' or not _same(r[1], values[q]):
+        return rt.no('m[%r] of a stored name' % (q,))
+    elif r != ('exc', KeyError):
+      return rt.no('m[%r] of a name that is not stored: %r' % (q, r))
+    r = _try(m.get_all_matches, q)
+    if r[0] != 'ok':
+      return rt.no('get_all_matches(%r) raised %s' % (q, r[1].__name__))
+    got_all = r[1]
     if len(got_all) != len(want):
       return False
-    try:
-      got = m.get_match(q, 'none')
-      if len(want) > 1:
+    if not all(any(g is values[w] for w in want) for g in got_all):
+      return rt.no('get_all_matches(%r) returned a foreign value' % (q,))
+    r = _try(m.get_match, q, 'none')
+    r0 = _try(m.get_match, q)                        # default omitted: None when nothing matches
+    if len(want) > 1:
+      if r != ('exc', KeyError) or r0 != ('exc', KeyError):
+        return rt.no('get_match(%r) of an ambiguous name: %r' % (q, r))
+    elif len(want) == 1:
+      if r[0] != 'ok' or not _same(r[1], values[want[0]]):
         return False
-      if len(want) == 1:
-        if not _same(got, values[want[0]]):
-          return False
-      elif got != 'none':
-        return False
-    except KeyError:
-      if len(want) <= 1:
-        return False
+      if r0[0] != 'ok' or not _same(r0[1], values[want[0]]):
+        return rt.no('get_match(%r) without default' % (q,))
+    else:
+      if r[0] != 'ok' or not _same(r[1], 'none'):
+        return rt.no('get_match(%r, dflt) of an unknown name: %r' % (q, r))
+      if r0[0] != 'ok' or r0[1] is not None:
+        return rt.no('get_match(%r) of an unknown name: %r' % (q, r0))
   for n in names:
     ms = m.minimal_selector(n)
     sf = suffixes(n)
@@ -114,9 +173,9 @@ def c08_step(nvoc: int, op: int, arg: int,
              v0: int, v1: int, v2: int, v3: int, v4: int, v5: int, v6: int,
              v7: int, v8: int, v9: int, vn: int) -> bool:
   """
-  pre: 0 <= op < 6 and 0 <= arg < nvoc
+  pre: 0 <= op < 9 and 0 <= arg < nvoc
   """
-  op = rt.pick(op, 6)
+  op = rt.pick(op, 9)
   arg = rt.pick(arg, nvoc)
   bits = [s0, s1, s2, s3, s4, s5, s6, s7, s8, s9]
   vals = [v0, v1, v2, v3, v4, v5, v6, v7, v8, v9]
@@ -128,7 +187,7 @@ def c08_step(nvoc: int, op: int, arg: int,
   target = VOC[arg]
   if op == 5 and arg != 0:
     rt.discard()
-  rt.sig(('step', tuple(names), op, target), nontrivial=len(names) >= 2)
+  rt.sig(('step', tuple(names), op, INVALID[arg] if op == 8 else target), nontrivial=len(names) >= 2)
   m = build(names, values)
   if not check_map(m, names, values, nvoc):     # the pre-state itself is consistent
     return False
@@ -168,9 +227,45 @@ def c08_step(nvoc: int, op: int, arg: int,
     m[target] = vn
     after = names if target in names else names + [target]
     return check_map(m, after, new_values, nvoc) and check_map(c, names, values, nvoc)
-  c = m.copy()                                  # clear the original, copy keeps all
-  m.clear()
-  return check_map(m, [], values, nvoc) and check_map(c, names, values, nvoc)
+  if op == 5:
+    c = m.copy()                                # clear the original, copy keeps all
+    m.clear()
+    return check_map(m, [], values, nvoc) and check_map(c, names, values, nvoc)
+  if op == 6:                                   # copy.copy (__copy__), then insert into the copy
+    c = copy.copy(m)
+    if type(c) is not selector_map.SelectorMap or not check_map(c, names, values, nvoc):
+      return rt.no('copy.copy(m) is not an equal SelectorMap')
+    c[target] = vn
+    after = names if target in names else names + [target]
+    return check_map(c, after, new_values, nvoc) and check_map(m, names, values, nvoc)
+  if op == 7:                                   # copy.deepcopy, then insert into / pop from the ORIGINAL
+    c = copy.deepcopy(m)
+    cvals = dict(values)                        # deepcopy may copy the stored values: equal, not identical
+    for n in names:
+      got = c.get(n, None)
+      if not (got is values[n] or got == values[n]):      # traced comparison (the values are symbolic)
+        return rt.no('copy.deepcopy(m) changed a stored value')
+      cvals[n] = got
+    if type(c) is not selector_map.SelectorMap or not check_map(c, names, cvals, nvoc):
+      return rt.no('copy.deepcopy(m) is not an equal SelectorMap')
+    if target in names:
+      m.pop(target)
+      return (check_map(m, [n for n in names if n != target], values, nvoc) and
+              check_map(c, names, cvals, nvoc))
+    m[target] = vn
+    return check_map(m, names + [target], new_values, nvoc) and check_map(c, names, cvals, nvoc)
+  # op == 8: a name that is not a dotted name is refused and the map is unchanged
+  bad = INVALID[arg]
+  try:
+    m[bad] = vn
+  except ValueError:
+    pass
+  except TypeError:
+    if isinstance(bad, str):
+      return rt.no('insert of %r raised TypeError' % (bad,))
+  else:
+    return rt.no('insert accepted the invalid name %r' % (bad,))
+  return check_map(m, names, values, nvoc)
 
 
 SPELL = ['x.m.fam', 'vw.x.m.fam', ('', 'x.m.fam'), ('', 'vw.x.m.fam'), 'fam', 'm.fam',
@@ -243,6 +338,369 @@ def c08_api(sp1: int, sp2: int, sp3: int, scoped: bool, v1: int, v2: int) -> boo
   return (rt.same('xm', rx, state.get('xm', 0)) and rt.same('ym', ry, state.get('ym', 0)))
 
 
+# ---- probes of this module: a complete stored name ('q.fam2') that is also a suffix of other names ------------
+def _register_probes():
+  if 'q.fam2' in gc._REGISTRY:       # idempotent (module imported twice in one process)
+    return (gc._REGISTRY['q.fam2'].wrapper, gc._REGISTRY['vw08.z.q.fam2'].wrapper,
+            gc._REGISTRY['vw08.y.q.fam2'].wrapper)
+
+  @gin.configurable('q.fam2')        # module part inside the name: the complete selector is 'q.fam2'
+  def fam2_q(p=0):
+    world.rec('fam2_q', p)
+    return p
+
+  @gin.configurable('fam2', module='vw08.z.q')
+  def fam2_zq(p=0):
+    world.rec('fam2_zq', p)
+    return p
+
+  @gin.configurable('fam2', module='vw08.y.q')
+  def fam2_yq(p=0):
+    world.rec('fam2_yq', p)
+    return p
+
+  return fam2_q, fam2_zq, fam2_yq
+
+
+fam2_q, fam2_zq, fam2_yq = _register_probes()
+
+# Two name families.  kinds: 'A' / 'B' = an unambiguous spelling of configurable A / B, 'amb' = matches several,
+# 'unk' = matches none, 'unk$' = matches none and contains the tree's terminal marker as a component.
+FAMS = [
+    dict(sels=['x.m.fam', 'vw.x.m.fam', 'fam', 'm.fam', 'nosuch', 'y.m.fam', 'vw.y.m.fam', '$.vw.x.m.fam'],
+         kinds=['A', 'A', 'amb', 'amb', 'unk', 'B', 'B', 'unk$'],
+         complete={'A': 'vw.x.m.fam', 'B': 'vw.y.m.fam'},
+         fns={'A': world.fam_xm, 'B': world.fam_ym},
+         # second statement: (selector index, form)
+         second=[None, (0, 0), (1, 0), (1, 4), (5, 1), (6, 5), (3, 0)]),
+    dict(sels=['z.q.fam2', 'vw08.z.q.fam2', 'fam2', 'nosuch.fam2', 'r.q.fam2', 'q.fam2', 'q.q.fam2', '$.q.fam2'],
+         kinds=['B', 'B', 'amb', 'unk', 'unk', 'A', 'unk', 'unk$'],
+         complete={'A': 'q.fam2', 'B': 'vw08.z.q.fam2'},
+         fns={'A': fam2_q, 'B': fam2_zq},
+         second=[None, (5, 0), (5, 1), (5, 4), (0, 1), (1, 5), (2, 0)]),
+]
+NSEL = 8
+# forms of a binding statement
+#  0 text, flat `[s/]SEL.p = v`        1 text, block `[s/]SEL:` + indented `p = v`
+#  2 / 3 the same with parse_config(..., skip_unknown=True)
+#  4 bind_parameter(str)   5 bind_parameter([scope, SEL, 'p']) (a list)   6 bind_parameter(ParsedBindingKey.parse(str))
+NFORM = 7
+REJECT = (ValueError, KeyError)
+
+
+def _bind(form, scope, sel, val):
+  """One binding statement; returns the exception it raised (or None)."""
+  pre = scope + '/' if scope else ''
+  try:
+    if form in (0, 2):
+      gin.parse_config('%s%s.p = %d' % (pre, sel, val), skip_unknown=(form == 2))
+    elif form in (1, 3):
+      gin.parse_config('%s%s:\n  p = %d\n' % (pre, sel, val), skip_unknown=(form == 3))
+    elif form == 4:
+      gin.bind_parameter('%s%s.p' % (pre, sel), val)
+    elif form == 5:
+      gin.bind_parameter([scope, sel, 'p'], val)
+    else:
+      gin.bind_parameter(gc.ParsedBindingKey.parse('%s%s.p' % (pre, sel)), val)
+  except Exception as e:     # noqa: judged by the caller
+    return e
+  return None
+
+
+def _bind_ok(kind, form, exc, state, val):
+  """Judges one binding statement against the reference and updates it."""
+  if kind in ('A', 'B'):
+    if exc is not None:
+      return rt.no('an unambiguous spelling was rejected: %r' % (exc,))
+    state[kind] = val
+    return True
+  if kind == 'amb':        # rejected as ambiguous, skip_unknown or not
+    return isinstance(exc, REJECT) or rt.no('an ambiguous spelling was not rejected: %r' % (exc,))
+  if form in (2, 3) and exc is None:
+    return True            # unknown + skip_unknown: silently skipped (C15's subject), nothing is bound
+  if kind == 'unk$' and form < 4 and isinstance(exc, SyntaxError):
+    return True            # '$' is not a token of the config language
+  return isinstance(exc, REJECT) or rt.no('an unknown spelling was not reported unknown: %r' % (exc,))
+
+
+def _observe(fam, state, scope, selq):
+  """Every reading API, with spelling `selq`, agrees with the reference `state` (kind -> value)."""
+  F = FAMS[fam]
+  pre = scope + '/' if scope else ''
+  sel, kind = F['sels'][selq], F['kinds'][selq]
+  known = kind in ('A', 'B')
+  r = _try(gin.query_parameter, pre + sel + '.p')
+  if known and kind in state:
+    if r != ('ok', state[kind]):
+      return rt.no('query_parameter(%r): %r' % (pre + sel + '.p', r))
+  elif r[0] != 'exc' or not issubclass(r[1], REJECT):
+    return rt.no('query_parameter(%r) of an unbound/unknown/ambiguous name: %r' % (pre + sel + '.p', r))
+  for inherit in (True, False):
+    r = _try(gin.get_bindings, pre + sel, True, inherit)
+    if known:
+      if r != ('ok', {'p': state[kind]} if kind in state else {}):
+        return rt.no('get_bindings(%r): %r' % (pre + sel, r))
+    elif r[0] != 'exc' or not issubclass(r[1], REJECT):
+      return rt.no('get_bindings(%r) of an unknown/ambiguous name: %r' % (pre + sel, r))
+  r = _try(gin.get_configurable, pre + sel)
+  if known:
+    if r[0] != 'ok' or r[1]() != state.get(kind, 0):
+      return rt.no('get_configurable(%r)() did not receive the value' % (pre + sel,))
+  elif r[0] != 'exc' or not issubclass(r[1], REJECT):
+    return rt.no('get_configurable(%r) of an unknown/ambiguous name: %r' % (pre + sel, r))
+  # by object, under the scope: the _inverse_lookup branch
+  with gin.config_scope(scope if scope else None):
+    for k in ('A', 'B'):
+      want = {'p': state[k]} if k in state else {}
+      if gin.get_bindings(F['fns'][k]) != want:
+        return rt.no('get_bindings(<object %s>)' % k)
+      if gin.get_configurable(F['fns'][k])() != state.get(k, 0):
+        return rt.no('get_configurable(<object %s>)()' % k)
+      if F['fns'][k]() != state.get(k, 0):
+        return rt.no('the configurable %s did not receive its value' % k)
+  # outside the scope a scoped binding is invisible
+  for k in ('A', 'B'):
+    if F['fns'][k]() != (0 if scope else state.get(k, 0)):
+      return rt.no('the configurable %s outside the scope' % k)
+  # the shortest reported spelling resolves back to the same entry: config_str() text re-parsed
+  saved = {k: dict(v) for k, v in gc._CONFIG.items()}
+  text = gin.config_str()
+  gc._CONFIG.clear()
+  gc._CONFIG_PROVENANCE.clear()
+  r = _try(gin.parse_config, text)
+  got = {k: dict(v) for k, v in gc._CONFIG.items()}
+  if r[0] != 'ok' or got != saved:
+    return rt.no('config_str() does not resolve back: %r -> %r (%r)' % (saved, got, r))
+  return True
+
+
+def c08_text(fam: int, f1: int, sel1: int, b2: int, selq: int, scoped: bool) -> bool:
+  """
+  pre: 0 <= fam < 2 and 0 <= f1 < 7 and 0 <= sel1 < 8 and 0 <= b2 < 7 and 0 <= selq < 8
+  """
+  fam, f1, sel1 = rt.pick(fam, 2), rt.pick(f1, NFORM), rt.pick(sel1, NSEL)
+  b2, selq = rt.pick(b2, 7), rt.pick(selq, NSEL)
+  scope = 's' if rt.flag(scoped) else ''
+  F = FAMS[fam]
+  rt.sig(('text', fam, f1, sel1, b2, selq, scope),
+         nontrivial=F['kinds'][sel1] in ('A', 'B') and F['kinds'][selq] in ('A', 'B'))
+  with rt.native():          # everything below is concrete (names and literal values)
+    world.fresh()
+    state = {}
+    exc = _bind(f1, scope, F['sels'][sel1], 11)
+    if not _bind_ok(F['kinds'][sel1], f1, exc, state, 11):
+      return False
+    if F['second'][b2] is not None:
+      i2, f2 = F['second'][b2]
+      exc = _bind(f2, scope, F['sels'][i2], 22)
+      if not _bind_ok(F['kinds'][i2], f2, exc, state, 22):
+        return False
+    return _observe(fam, state, scope, selq)
+
+
+# reference forms
+#  0 `vw.cons.p = @[s/]SEL()`   1 `vw.cons.p = @[s/]SEL` (the caller calls it)   2 form 0 with skip_unknown=True
+#  3 `vw.cons.p = [@[s/]SEL, @[s/]OTHER-SPELLING]` read back with resolve_references=False
+NRF = 4
+
+
+def c08_refs(fam: int, selb: int, bscoped: bool, selr: int, rf: int, rscoped: bool) -> bool:
+  """
+  pre: 0 <= fam < 2 and 0 <= selb < 8 and 0 <= selr < 7 and 0 <= rf < 4
+  """
+  fam, selb, selr, rf = rt.pick(fam, 2), rt.pick(selb, NSEL), rt.pick(selr, NSEL - 1), rt.pick(rf, NRF)
+  bscope = 's' if rt.flag(bscoped) else ''
+  rscope = 's' if rt.flag(rscoped) else ''
+  F = FAMS[fam]
+  kb, kr = F['kinds'][selb], F['kinds'][selr]
+  if kb not in ('A', 'B'):
+    rt.discard()
+  if rf == 3 and kr not in ('A', 'B'):
+    rt.discard()
+  rt.sig(('refs', fam, selb, bscope, selr, rf, rscope), nontrivial=kr in ('A', 'B'))
+  with rt.native():
+    world.fresh()
+    gin.bind_parameter(((bscope + '/') if bscope else '') + F['sels'][selb] + '.p', 11)
+    pre = rscope + '/' if rscope else ''
+    ref = '@' + pre + F['sels'][selr]
+    if rf == 3:
+      other = [i for i in range(NSEL) if F['kinds'][i] == kr and i != selr]
+      other = F['sels'][other[0]] if other else F['sels'][selr]
+      text = 'vw.cons.p = [%s, @%s%s]' % (ref, pre, other)
+    else:
+      text = 'vw.cons.p = %s%s' % (ref, '' if rf == 1 else '()')
+    r = _try(gin.parse_config, text, rf == 2)
+    if kr == 'amb':
+      return (r[0] == 'exc' and issubclass(r[1], REJECT)) or rt.no('ambiguous reference accepted: %r' % (r,))
+    if kr == 'unk':
+      if rf == 2 and r[0] == 'ok':
+        return True        # placeholder for an unknown reference (C15's subject)
+      return (r[0] == 'exc' and issubclass(r[1], REJECT)) or rt.no('unknown reference accepted: %r' % (r,))
+    if r[0] != 'ok':
+      return rt.no('reference through an unambiguous spelling rejected: %r' % (r,))
+    # value the referenced configurable receives when called under the reference's scope
+    want = 11 if (kb == kr and bscope in ('', rscope)) else 0
+    if rf == 3:
+      r1, r2 = gin.get_bindings('vw.cons', resolve_references=False)['p']
+      if r1.config_key != r2.config_key:
+        return rt.no('config_key of a reference depends on its spelling: %r %r' % (r1.config_key, r2.config_key))
+      if not (r1 == r2) or (r1 != r2):
+        return rt.no('two spellings of one reference are not equal')
+      return r1.scoped_configurable_fn() == want and r2.scoped_configurable_fn() == want
+    world.cons()
+    got = world.LOG[-1][1][0]
+    if rf == 1:
+      got = got()
+    if got != want:
+      return rt.no('reference %s delivered %r, want %r' % (text, got, want))
+    got = gin.get_bindings('vw.cons')['p']
+    if rf == 1:
+      got = got()
+    return got == want or rt.no('get_bindings resolved the reference to %r, want %r' % (got, want))
+
+
+# ---- finalize: two user hooks give one parameter through two spellings -------------------------------------------
+# key kinds of a hook result: (what, selector spelling index in FAMS[0])
+#   's' string key, 't' tuple key, 'k' ParsedBindingKey instance
+HKEYS = [('s', 0), ('s', 1), ('t', 0), ('t', 1), ('k', 0), ('k', 1), ('s', 5), ('t', 6), ('s', 3), ('s', 4)]
+
+
+def _hkey(i, scope):
+  what, si = HKEYS[i]
+  sel = FAMS[0]['sels'][si]
+  if what == 't':
+    return (scope, sel, 'p')
+  text = (scope + '/' if scope else '') + sel + '.p'
+  return gc.ParsedBindingKey.parse(text) if what == 'k' else text
+
+
+def c08_hooks(k1: int, k2: int, sc1: bool, sc2: bool, one: bool, pre: bool, v1: int, v2: int) -> bool:
+  """
+  pre: 0 <= k1 < 10 and 0 <= k2 < 10
+  """
+  world.fresh()
+  k1, k2 = rt.pick(k1, 10), rt.pick(k2, 10)
+  s1 = 's' if rt.flag(sc1) else ''
+  s2 = 's' if rt.flag(sc2) else ''
+  one, pre = rt.flag(one), rt.flag(pre)
+  kinds = FAMS[0]['kinds']
+  kd1, kd2 = kinds[HKEYS[k1][1]], kinds[HKEYS[k2][1]]
+  same_param = kd1 == kd2 and kd1 in ('A', 'B') and s1 == s2
+  if one and s1 == s2 and (k1 == k2 or (same_param and 'k' in (HKEYS[k1][0], HKEYS[k2][0]))):
+    # equal Python objects are ONE entry of the hook's dict (nothing to decide); a ParsedBindingKey is a
+    # tuple, so beside another spelling of its parameter in ONE dict Python itself may merge or compare them
+    rt.discard()
+  rt.sig(('hooks', k1, k2, s1, s2, one, pre), nontrivial=same_param)
+  if pre:                   # an earlier binding of A under the complete name, which a hook may overwrite
+    gin.bind_parameter(('', 'vw.x.m.fam', 'p'), 7)
+  key1, key2 = _hkey(k1, s1), _hkey(k2, s2)
+  if one:
+    with rt.native():       # a real dict (hash lookup): keys of different types are never compared
+      d = {key1: v1, key2: v2}
+      if len(d) != 2:
+        raise rt.HarnessError('two hook keys collapsed inside a plain dict')
+    gin.config.register_finalize_hook(lambda config: d)
+  else:
+    gin.config.register_finalize_hook(lambda config: {key1: v1})
+    gin.config.register_finalize_hook(lambda config: {key2: v2})
+  exc = None
+  try:
+    gin.finalize()
+  except Exception as e:
+    exc = e
+  bad = [k for k in (kd1, kd2) if k not in ('A', 'B')]
+  if bad:                   # ambiguous / unknown key: rejected
+    return isinstance(exc, REJECT) or rt.no('finalize accepted an ambiguous/unknown hook key: %r' % (exc,))
+  if same_param and not one:
+    # the mechanism the property names: one parameter through two spellings from two hooks is ONE key
+    return isinstance(exc, ValueError) or rt.no('two hooks updated one parameter under two spellings: %r' % (exc,))
+  want = {}                 # (scope, kind) -> value
+  if pre:
+    want[('', 'A')] = 7
+  if same_param:            # one hook naming one parameter twice: a conflict error or one of the two values
+    if exc is not None:
+      return isinstance(exc, ValueError) or rt.no('unexpected error %r' % (exc,))
+    got = gin.query_parameter((s1 + '/' if s1 else '') + FAMS[0]['complete'][kd1] + '.p')
+    return got is v1 or got is v2 or rt.no('one hook, two spellings: neither value bound')
+  if exc is not None:
+    with rt.native():
+      return rt.no('finalize rejected updates of two different parameters: %r' % (exc,))
+  want[(s1, kd1)] = v1
+  want[(s2, kd2)] = v2
+  # every spelling reads the values back; the configurables receive them
+  for sc in ('', 's'):
+    for k, spell in (('A', 'x.m.fam'), ('A', 'vw.x.m.fam'), ('B', 'y.m.fam')):
+      key = (sc + '/' if sc else '') + spell + '.p'
+      try:
+        got = gin.query_parameter(key)
+        if (sc, k) not in want or not (got is want[(sc, k)] or rt.same(key, got, want[(sc, k)])):
+          return rt.no('query %s after finalize' % key)
+      except ValueError:
+        if (sc, k) in want:
+          return rt.no('query %s after finalize: not bound' % key)
+  del world.LOG[:]
+  world.fam_xm()
+  world.fam_ym()
+  with gin.config_scope('s'):
+    world.fam_xm()
+    world.fam_ym()
+  got = [l[1][0] for l in world.LOG]
+  exp = [want.get(('', 'A'), 0), want.get(('', 'B'), 0),
+         want.get(('s', 'A'), want.get(('', 'A'), 0)), want.get(('s', 'B'), want.get(('', 'B'), 0))]
+  for g, e in zip(got, exp):
+    if not (g is e or rt.same('received', g, e)):
+      return rt.no('a configurable did not receive the value given by a hook')
+  return True
+
+
+# ---- names that are not dotted names, through the registering APIs ----------------------------------------------
+BADNAMES = ['K\n', 'a.K\n', '', 'K.', '.K', 'a..K', '1K', 'K-x', '$']
+
+
+def _junk(p=0):
+  return p
+
+
+def c08_badname(api: int, bad: int) -> bool:
+  """
+  pre: 0 <= api < 4 and 0 <= bad < 9
+  """
+  api, bad = rt.pick(api, 4), rt.pick(bad, len(BADNAMES))
+  name = BADNAMES[bad]
+  rt.sig(('badname', api, name))
+  with rt.native():
+    world.fresh()
+    reg_before = sorted(gc._REGISTRY._selector_map)
+    const_before = sorted(gc._CONSTANTS._selector_map)
+    try:
+      if api == 0:
+        r = _try(gin.constant, name, 1)
+      elif api == 1:
+        r = _try(lambda: gin.configurable(name)(_junk))
+      elif api == 2:
+        if not name:
+          rt.discard()      # module='' means "no module given"
+        r = _try(lambda: gin.configurable('junk08', module=name)(_junk))
+      else:
+        r = _try(lambda: gin.external_configurable(_junk, name))
+      reg_after = sorted(gc._REGISTRY._selector_map)
+      const_after = sorted(gc._CONSTANTS._selector_map)
+    finally:                # never let an accepted junk name leak into the next path
+      for n in [n for n in gc._REGISTRY._selector_map if n not in reg_before]:
+        gc._REGISTRY.pop(n)
+      gc._INVERSE_REGISTRY.pop(_junk, None)
+    if api == 1 and name == '':
+      return True           # configurable('') means "no name given": the function's own name is used
+    if api == 3 and name == '':
+      return True
+    if r[0] != 'exc' or not issubclass(r[1], ValueError):
+      return rt.no('%r accepted as a name (api %d): now stored %r' %
+                   (name, api, [n for n in reg_after + const_after if n not in reg_before + const_before]))
+    if reg_after != reg_before or const_after != const_before:
+      return rt.no('a rejected name changed the registry')
+    return True
+
+
 # every spelling of a macro reference / definition is one key for the finalize hooks too
 from vf.harness.c05 import c05_prefix as c08_refkey  # noqa: E402  (same harness, claimed under C08 as well)
 
@@ -265,25 +723,40 @@ HARNESSES = {
                     v6=6, v7=7, v8=8, v9=9, vn=10),
                dict(nvoc=7, op=1, arg=3, s0=True, s1=True, s2=True, s3=True, s4=False, s5=False,
                     s6=False, s7=False, s8=False, s9=False, v0=0, v1=1, v2=2, v3=3, v4=4, v5=5,
-                    v6=6, v7=7, v8=8, v9=9, vn=10)],
-        tiers={'quick': dict(split=dict(op=list(range(6)), s0=[False, True], s1=[False, True]),
+                    v6=6, v7=7, v8=8, v9=9, vn=10)] +
+              # copy.copy, copy.deepcopy; s0 (name 'a') is stored, so that the '$.a' query reaches a terminal
+              [dict(nvoc=7, op=o, arg=a, s0=True, s1=True, s2=False, s3=True, s4=False, s5=False,
+                    s6=True, s7=False, s8=False, s9=False, v0=0, v1=1, v2=2, v3=3, v4=4, v5=5,
+                    v6=6, v7=7, v8=8, v9=9, vn=10) for o, a in ((6, 2), (7, 1), (7, 5))] +
+              # refused inserts ('' and 'a\n') into a map none of whose names is reached by a '$' query
+              [dict(nvoc=7, op=8, arg=a, s0=False, s1=False, s2=True, s3=True, s4=False, s5=False,
+                    s6=True, s7=False, s8=False, s9=False, v0=0, v1=1, v2=2, v3=3, v4=4, v5=5,
+                    v6=6, v7=7, v8=8, v9=9, vn=10) for a in (1, 0)],
+        tiers={'quick': dict(split=dict(op=list(range(9)), s0=[False, True], s1=[False, True]),
                              fixed=dict(nvoc=7, s7=False, s8=False, s9=False), budget_s=100),
-               'thorough': dict(split=dict(op=list(range(6)), arg=list(range(10)),
+               'thorough': dict(split=dict(op=list(range(9)), arg=list(range(10)),
                                            s0=[False, True], s1=[False, True]),
                                 fixed=dict(nvoc=10), budget_s=900)},
         bounds='arbitrary subset of a 7-name (quick) / 10-name (thorough) vocabulary over components {a,b}, '
                'depth<=3, with names that are suffixes of other names; one operation (insert/overwrite, pop, '
-               'copy+mutate copy, copy+mutate original, clear) with arbitrary argument; all queries over the '
-               'vocabulary, its suffixes and 3 foreign names; stored values: all ints. Inductive step: the '
+               'copy+mutate copy, copy+mutate original, clear, copy.copy+mutate copy, copy.deepcopy+mutate '
+               'original, insert of a name that is not a dotted name: 7 (quick) / 10 (thorough) of them incl. '
+               "'a\\n', '', 'a..b', '$', None -> ValueError (TypeError for None) and map unchanged) with arbitrary "
+               'argument; all queries over the vocabulary, its suffixes, 3 foreign names and 10 strings that are '
+               "not dotted names or contain the terminal marker ('', '.', 'a.', '.a', 'a..a', '$', '$.a', '$.b.a', "
+               "'a.$', '$.a.b': each must be reported unknown by matching_selectors / get_match (with and without "
+               'default) / get_all_matches / get / in / m[q]); stored values: all ints. Inductive step: the '
                'post-state is again the canonical trie, so histories of any length are covered.'),
     'c08_refkey': dict(
         fn='c08_refkey',
         anchors=['gin.config:validate_macros_hook', 'gin.config:validate_reference'],
+        # (c05_prefix has grown a parameter `fscope` - finalize inside config_scope('amb'), C05's subject: pinned off here)
         smoke=[dict(d0=True, d1=True, d2=False, d3=False, u0=True, u1=True, u2=False, u3=False, spell=1,
-                    bindspell=1, late=False, v0=1, v1=2, v2=3, v3=4)],
-        tiers={'quick': dict(split=dict(spell=[0, 1, 2], bindspell=[0, 1, 2]), fixed=dict(d3=False, u3=False, d2=False, u2=False),
-                             budget_s=100),
-               'thorough': dict(split=dict(spell=[0, 1, 2], bindspell=[0, 1, 2]), fixed=dict(d3=False, u3=False), budget_s=300)},
+                    bindspell=1, late=False, fscope=False, v0=1, v1=2, v2=3, v3=4)],
+        tiers={'quick': dict(split=dict(spell=[0, 1, 2], bindspell=[0, 1, 2]),
+                             fixed=dict(d3=False, u3=False, d2=False, u2=False, fscope=False), budget_s=100),
+               'thorough': dict(split=dict(spell=[0, 1, 2], bindspell=[0, 1, 2]),
+                                fixed=dict(d3=False, u3=False, fscope=False), budget_s=300)},
         bounds='finalize (built-in hooks) over 3 spellings of a macro reference x 3 spellings of its definition x '
                'definitions before/after the uses, names m and m/x'),
     'c08_api': dict(
@@ -295,4 +768,88 @@ HARNESSES = {
                'thorough': dict(split=dict(sp1=list(range(8)), sp2=list(range(8))), budget_s=300)},
         bounds='two binds and one query over 8 spellings (4 unambiguous spellings of one parameter as string '
                'and tuple keys, 2 ambiguous, 1 unknown, 1 sibling), scoped or not; values: all ints'),
+    'c08_text': dict(
+        fn='c08_text',
+        anchors=['gin.config:parse_config', 'gin.config:parse', 'gin.config:bind_parameter',
+                 'gin.config:query_parameter', 'gin.config:get_bindings', 'gin.config:get_configurable',
+                 'gin.config:_as_scope_and_selector', 'gin.config:_inverse_lookup', 'gin.config:config_str',
+                 'gin.selector_map:minimal_selector', 'gin.selector_map:get_match'],
+        smoke=[dict(fam=0, f1=0, sel1=0, b2=3, selq=1, scoped=True),     # flat text, then bind_parameter
+               dict(fam=1, f1=1, sel1=5, b2=4, selq=0, scoped=False),    # block text on the exact name 'q.fam2'
+               dict(fam=0, f1=5, sel1=1, b2=0, selq=5, scoped=False),    # list key
+               dict(fam=0, f1=6, sel1=0, b2=2, selq=1, scoped=True),     # ParsedBindingKey instance
+               dict(fam=0, f1=2, sel1=4, b2=1, selq=0, scoped=False),    # unknown + skip_unknown
+               dict(fam=1, f1=3, sel1=2, b2=6, selq=2, scoped=True),     # ambiguous block header + skip_unknown
+               dict(fam=1, f1=4, sel1=0, b2=1, selq=7, scoped=False)],   # '$' as a query component
+        tiers={'quick': dict(split=dict(fam=[0, 1], f1=list(range(7))), budget_s=100),
+               'thorough': dict(split=dict(fam=[0, 1], f1=list(range(7))), budget_s=300)},
+        bounds='2 name families (vw.x.m.fam / vw.y.m.fam; q.fam2 - a COMPLETE name that is also a suffix of '
+               'vw08.z.q.fam2 and vw08.y.q.fam2) x 8 spellings each (unambiguous short/long, ambiguous, unknown at '
+               "3 depths, '$' as a component) x 7 statement forms (flat text, block text, both with "
+               'skip_unknown=True, bind_parameter by str / list / ParsedBindingKey instance) x an optional second '
+               'statement (6 spelling/form pairs) x 8 query spellings, scoped or not; read back through '
+               'query_parameter, get_bindings (str, inherit_scopes both ways, and by object under the scope), '
+               'get_configurable (str and object), the configurables themselves, and config_str() re-parsed '
+               '(minimal selectors resolve back). All leaves concrete (values 11 / 22), run natively.'),
+    'c08_refs': dict(
+        fn='c08_refs',
+        anchors=['gin.config:configurable_reference', 'gin.config:initialize', 'gin.config:_should_skip',
+                 'gin.config:knows', 'gin.config:config_key', 'gin.config:__deepcopy__'],
+        smoke=[dict(fam=0, selb=1, bscoped=False, selr=0, rf=0, rscoped=True),
+               dict(fam=0, selb=0, bscoped=True, selr=1, rf=1, rscoped=True),
+               dict(fam=1, selb=5, bscoped=False, selr=5, rf=2, rscoped=False),
+               dict(fam=1, selb=0, bscoped=False, selr=1, rf=3, rscoped=True),
+               dict(fam=0, selb=0, bscoped=False, selr=3, rf=2, rscoped=False),
+               dict(fam=1, selb=0, bscoped=False, selr=4, rf=2, rscoped=False)],
+        tiers={'quick': dict(split=dict(fam=[0, 1], rf=list(range(4))), budget_s=100),
+               'thorough': dict(split=dict(fam=[0, 1], rf=list(range(4))), budget_s=300)},
+        bounds='one binding (any unambiguous spelling, scoped or not) and one reference in config text: '
+               '@SEL(), @SEL, @SEL() with skip_unknown=True, [@SEL, @other spelling] read back unresolved; 7 '
+               'reference spellings x 2 families, reference scoped or not; the consumer receives the value of the '
+               'referenced entry, config_key and == do not depend on the spelling, ambiguous references are '
+               'rejected even with skip_unknown. Concrete leaves, run natively.'),
+    'c08_hooks': dict(
+        fn='c08_hooks',
+        anchors=['gin.config:finalize', 'gin.config:register_finalize_hook', 'gin.config:parse',
+                 'gin.config:__hash__', 'gin.config:__eq__', 'gin.config:bind_parameter'],
+        smoke=[dict(k1=0, k2=1, sc1=False, sc2=False, one=False, pre=True, v1=5, v2=6),    # str / str conflict
+               dict(k1=2, k2=5, sc1=True, sc2=True, one=False, pre=False, v1=5, v2=6),     # tuple / instance
+               dict(k1=0, k2=3, sc1=False, sc2=False, one=True, pre=False, v1=5, v2=6),    # one hook, two spellings
+               dict(k1=4, k2=6, sc1=False, sc2=True, one=False, pre=True, v1=5, v2=6),     # different parameters
+               dict(k1=1, k2=0, sc1=True, sc2=False, one=False, pre=True, v1=5, v2=6),     # same name, other scope
+               dict(k1=0, k2=8, sc1=False, sc2=False, one=False, pre=False, v1=5, v2=6)],  # ambiguous key
+        tiers={'quick': dict(split=dict(k1=list(range(10))), budget_s=100),
+               'thorough': dict(split=dict(k1=list(range(10)), k2=list(range(10))), budget_s=300)},
+        bounds='two user finalize hooks (or ONE hook whose dict holds both keys) x 10 key kinds each (str / '
+               '3-tuple / ParsedBindingKey instance with different given_selector, short and complete spelling, '
+               'sibling configurable, ambiguous, unknown) x each key scoped or not x an earlier binding under the '
+               'complete name; two hooks naming one parameter must raise ValueError, different parameters '
+               '(other configurable or other scope) must both apply and read back through every spelling; '
+               'values: all ints'),
+    'c08_badname': dict(
+        fn='c08_badname',
+        anchors=['gin.config:constant', 'gin.config:_make_configurable', 'gin.selector_map:__setitem__'],
+        smoke=[dict(api=0, bad=5), dict(api=1, bad=6), dict(api=2, bad=7), dict(api=3, bad=3),
+               dict(api=0, bad=0), dict(api=1, bad=1)],
+        tiers={'quick': dict(split=dict(api=[0, 1, 2, 3]), budget_s=60),
+               'thorough': dict(split=dict(api=[0, 1, 2, 3]), budget_s=60)},
+        bounds="9 strings that are not dotted names ('K\\n', 'a.K\\n', '', 'K.', '.K', 'a..K', '1K', 'K-x', '$') "
+               'given as the name of gin.constant, the name or the module of gin.configurable, the name of '
+               'gin.external_configurable: ValueError, registry and constants unchanged'),
 }
+
+OUTSIDE = ('names over other alphabets than {a,b} / deeper than 3 at map level; nested scopes (a/b) with mixed '
+           'spellings; registered methods (the only API path that removes a name); enum constants; sharing of '
+           'stored VALUE objects between a map and its copy (the statement is read as: the copy shares no '
+           'structure, i.e. no later operation on one is visible through the other); __hash__ of '
+           'ConfigurableReference (equal references of different spelling hash differently; Gin never uses '
+           'them as keys)')
+ASSUMPTIONS = [
+    'a name that is not a sequence of identifiers separated by single periods is not a "dotted name": inserting '
+    'or registering it must raise ValueError (documented contract of SelectorMap.__setitem__ / gin.constant / '
+    'gin.configurable); a query string containing the terminal marker or empty components matches nothing and '
+    'must be reported unknown, not crash',
+    'ONE finalize hook naming one parameter under two spellings may either raise the conflict error or bind one '
+    'of the two values; TWO hooks must raise ValueError',
+    'an unknown name under skip_unknown=True may be skipped silently (C15); an ambiguous one must still raise',
+]
